@@ -1088,6 +1088,13 @@ func (bf *Bitfield) Decode(d *Decoder) error {
 	}
 	cLog(Yellow, "BitField: %x", bytes)
 
+	// The bits beyond the last core are padding: only zero padding is an encoding of a bitfield.
+	for i := CoresCount; i < 8*AvailBitfieldBytes; i++ {
+		if (bytes[i/8]>>(i%8))&0x01 != 0 {
+			return fmt.Errorf("Bitfield has a non-zero padding bit %d", i)
+		}
+	}
+
 	bitfield, err := MakeBitfieldFromByteSlice(bytes)
 	if err != nil {
 		return err
